@@ -608,6 +608,14 @@ func (pool *hostConnPool) connect() (err error) {
 		return nil
 	}
 
+	if conn.Closed() {
+		// The connection was lost between the handshake and here. Its error callback
+		// (HandleError) has already run and found nothing to remove, so adding it now
+		// would leave a dead connection in the pool that is never replaced. A connection
+		// that dies after this check is removed by HandleError, which takes pool.mu.
+		return ErrConnectionClosed
+	}
+
 	pool.conns = append(pool.conns, conn)
 	verifEvent("p_connect_add", pool, "", len(pool.conns), nil)
 
